@@ -303,6 +303,53 @@ func extractGroup(repo, root string) error {
 		return fmt.Errorf("untranslated: no `for … range … { …partitionWatcher(…) }` in nextGeneration")
 	}
 
+	// consumergroup.go coordinator(): what the second `connect` dials — the address is built from the FindCoordinator
+	// answer: `<join>(<…>.Host, <…(…>.Port…)>)`, directly or through one local variable.
+	var coordDial []string
+	if fd := funcOf(gf, "ConsumerGroup", "coordinator"); fd != nil {
+		defs := map[string]ast.Expr{}
+		var last *ast.CallExpr
+		ast.Inspect(fd.Body, func(n ast.Node) bool {
+			switch x := n.(type) {
+			case *ast.AssignStmt:
+				if len(x.Lhs) == 1 && len(x.Rhs) == 1 {
+					if id, ok := x.Lhs[0].(*ast.Ident); ok {
+						defs[id.Name] = x.Rhs[0]
+					}
+				}
+			case *ast.CallExpr:
+				if sel(x.Fun) == "connect" {
+					last = x
+				}
+			}
+			return true
+		})
+		var inner func(e ast.Expr) string // the selector at the bottom of conversions / formatting calls
+		inner = func(e ast.Expr) string {
+			if c, ok := e.(*ast.CallExpr); ok && len(c.Args) == 1 {
+				return inner(c.Args[0])
+			}
+			return sel(e)
+		}
+		if last != nil && len(last.Args) == 2 && !last.Ellipsis.IsValid() {
+			arg := last.Args[1]
+			if id, ok := arg.(*ast.Ident); ok && defs[id.Name] != nil {
+				arg = defs[id.Name]
+			}
+			if c, ok := arg.(*ast.CallExpr); ok {
+				coordDial = append(coordDial, fmt.Sprintf("%q", sel(c.Fun)))
+				for _, a := range c.Args {
+					coordDial = append(coordDial, fmt.Sprintf("%q", inner(a)))
+				}
+			} else {
+				coordDial = append(coordDial, fmt.Sprintf("%q", sel(arg)))
+			}
+		}
+	}
+	if len(coordDial) == 0 {
+		return fmt.Errorf("untranslated: coordinator() does not end in connect(dialer, <one address>)")
+	}
+
 	// reader.go (*reader).run: the restart position.  `conn, <start>, err := r.initialize(ctx, <offset>)` is followed by an
 	// assignment `<x> = <start>`: it must be a plain assignment (not a `:=` that shadows) to the function's own offset
 	// parameter, so that the next (re)initialisation starts from where the fetcher stands.
@@ -368,6 +415,7 @@ func extractGroup(repo, root string) error {
 	fmt.Fprintf(&b, "def unsubscribeCancels : String := %q\n", unsubCancels)
 	fmt.Fprintf(&b, "def restartAssign : String × Bool := (%q, %v)\n", restartTok, restartToParam)
 	fmt.Fprintf(&b, "def watcherRange : String := %q\n", watcherRange)
+	fmt.Fprintf(&b, "def coordinatorDial : List String := [%s]\n", strings.Join(coordDial, ", "))
 	fmt.Fprintf(&b, "def fetchVersionFilter : String := %q\n", versionOp)
 	fmt.Fprintf(&b, "def readerGroupOptions : List (String × String) := [%s]\n", strings.Join(optPairs, ", "))
 	b.WriteString("end KV.Gen.Group\n")
